@@ -309,8 +309,9 @@ CLAIMED["C19"] = dict(
         "entries that did not match a pattern) pass the caller's start name, inclusive flag and limit to the first round unchanged, and every further round continues "
         "exclusively after the last name the previous round reached, asks for exactly the number of entries still missing, and only happens after a successful round; "
         "on success nothing is missing any more; FilerStoreWrapper.prefixFilterEntries continues every store listing exclusively after the name the previous store "
-        "listing returned.",
-   note="Order, exactness and duplicate-freeness of the rounds themselves (the store's ListDirectoryEntries - the seeded change C19-m2 lives in the leveldb2 store -, "
+        "listing returned. One page of a listing in the leveldb, leveldb2 and leveldb3 stores (ListDirectoryPrefixedEntries; iterator, key codec and decoder "
+        "abstract): at most limit entries reach the callback and the name returned for continuing is the name of the last entry built for the callback.",
+   note="Order, exactness and duplicate-freeness of the rounds themselves (key order of the leveldb iterator, the other store implementations, "
         "doListDirectoryEntries' expiry callback, filepath.Match) are assumed; ListDirectoryEntries' limit+1 / hasMore arithmetic and the last-delivered-name question "
         "when prefixFilterEntries stops in the middle of a page are not decided. One defect repaired (refill restarted after the first page: non-termination). " + TRUST,
    design="DESIGN.md §4 C19")
